@@ -265,7 +265,7 @@ def main(tier, seed):
 
     d = snapshot_dir()
     files = [os.path.join(d, f) for f in sorted(os.listdir(d)) if f.endswith(".snapshot")]
-    n = 60 if tier == "quick" else 800
+    n = 100 if tier == "quick" else 3000
     res = run_shards("checks.c19", "part_a", [{"seed": seed * 100 + i, "n": n} for i in range(6)], timeout=1800)
     res += run_shards("checks.c19", "part_b", [{"seed": seed * 100 + i, "n": n} for i in range(6)], timeout=1800)
     res += run_shards("checks.c19", "part_c", [{"files": files[i::4]} for i in range(4)], timeout=1800)
